@@ -8,7 +8,7 @@ os.makedirs(os.path.join(HERE, 'replays'), exist_ok=True)
 for f in glob.glob(os.path.join(HERE, '**', '*.py'), recursive=True):
     if '/seeded/' in f:
         continue
-    py_compile.compile(f, doraise=True, cfile=os.devnull)
+    compile(open(f).read(), f, 'exec')
 from vf import refmodel as rm
 n = 0
 for r in range(-1, 5):
